@@ -1,7 +1,11 @@
 """Process environment shared by every check: paths, import of the tree under test."""
 import os
 import sys
+import time
+import fcntl
 import logging
+import contextlib
+from typing import Iterator
 
 VERIF = os.path.dirname(os.path.dirname(os.path.abspath(__file__)))
 REPO = os.environ.get('VERIF_REPO', '/repo')
@@ -30,3 +34,30 @@ def workdir(*parts: str) -> str:
     d = os.path.join(WORK, *parts)
     os.makedirs(d, exist_ok=True)
     return d
+
+
+@contextlib.contextmanager
+def exclusive(name: str, timeout: float = 60.0) -> Iterator[bool]:
+    """Cross-process mutual exclusion (flock on a file under .work/locks) for harness resources that
+    exist once per machine, e.g. a fixed port on the only IPv6 loopback address: shards of one check
+    and concurrently running checks would otherwise meet on each other's listening sockets.
+    Yields False when the lock could not be had in time (caller: inconclusive, never a verdict)."""
+    path = os.path.join(workdir('locks'), name.replace('/', '_') + '.lock')
+    fd = os.open(path, os.O_CREAT | os.O_RDWR, 0o600)
+    got = False
+    try:
+        end = time.monotonic() + timeout
+        while True:
+            try:
+                fcntl.flock(fd, fcntl.LOCK_EX | fcntl.LOCK_NB)
+                got = True
+                break
+            except OSError:
+                if time.monotonic() > end:
+                    break
+                time.sleep(0.002)
+        yield got
+    finally:
+        if got:
+            fcntl.flock(fd, fcntl.LOCK_UN)
+        os.close(fd)
